@@ -277,7 +277,7 @@ def gen_c36(d, opts):
 
 
 STORE_ATTEMPTS = ["put", "put_operators", "put_parts", "put_parts_matching", "load_recipes", "put_recipe", "set_xgrid", "update", "dump_default"]
-HARMLESS = ["get", "del", "contains", "iter", "unload_all", "items", "approx", "cards", "dump_other", "close_again", "ctx", "get_recipe", "get_part", "sync_all", "meta_lowlevel"]
+HARMLESS = ["get", "del", "contains", "iter", "unload_all", "items", "approx", "cards", "dump_other", "close_again", "ctx", "get_recipe", "get_part", "sync_all", "meta_lowlevel", "rebuild"]
 
 
 def gen_c39(d, opts):
@@ -304,6 +304,10 @@ def gen_c39(d, opts):
     if mode == "closed_rw":
         ops.append(dict(id=i, op="close"))
         i += 1
+        if d.chance("c39:rebuild", 0.35):
+            # the used builder is asked to build again before the attempts start
+            ops.append(dict(id=i, op="rebuild"))
+            i += 1
     else:
         ops.append(dict(id=i, op="close"))
         i += 1
@@ -526,6 +530,8 @@ class Interp:
             return False
         builder = EKO.create(self.path)
         self.eko = builder.load_cards(self.th, self.opc).build()
+        # kept: a used builder is asked to build again by C39's "rebuild" (a retry)
+        self.builder, self.built = builder, self.eko
         self.card_raw = (self.th.raw, self.opc.raw)
         self.meta_raw = self.eko.metadata.raw
         self.model.sess = dict(mode="rw", working={}, meta=dict(self.meta_raw), parts={}, recipes=set())
@@ -1005,6 +1011,19 @@ class Interp:
                     pass
             elif kind == "dump_other":
                 eko.dump(pathlib.Path(self.root) / "out" / f"other-{op['id']}.tar")
+            elif kind == "rebuild":
+                # the used builder of a closed created EKO is asked to build once
+                # more (a retry in user code).  Whether that raises is not C39's
+                # business and the result is dropped unclosed (kept referenced, so
+                # no finalizer of it runs inside the session); the CLOSED handle
+                # must go on refusing stores and the archive must not change
+                b = getattr(self, "builder", None)
+                if b is None or getattr(self, "built", None) is not eko or sess is not None:
+                    self.note("c39", kind, "skipped")
+                    return False
+                self.probes["rebuilds"] = self.probes.get("rebuilds", 0) + 1
+                self.rebuilt = getattr(self, "rebuilt", [])
+                self.rebuilt.append(b.build())
             elif kind == "close_again":
                 eko.close()
                 if sess is not None:
